@@ -17,7 +17,7 @@ the Spec (`Spec.checkData`: while a data frame is handled no other data frame is
 published type, source, destination ids and length; every live subscriber — to the type or to everything — that is ready
 (writable, or a logger), passes the destination filter and whose connection works gets exactly one copy; nobody else
 gets one) are stated over the Spec's own abstract table; the proof carries a simulation relation between that table and
-the model's tables (`Sim`, incl. "the subscription index lists a module under exactly the types of its `subs`") through
+the model's tables (`SimM`, incl. "the subscription index lists a module under exactly the types of its `subs`") through
 every round and uses `forward_copies` (the statement of `routing_exact` for the top-level forward).
 -/
 namespace Pyrtma.C01
